@@ -34,7 +34,13 @@ META = {
                   "cache.NewMockCache() in a synctest bubble; replies (bytes exactly), errors and the full backend content are compared after "
                   "every operation. Placement: JumpHash.tla decided for all jump sets x all pairs of lists over N names; recorded PickServer "
                   "results of the real selector (lists of 1..65 names in naturally sorted, byte-wise sorted, reversed, rotated and shuffled input order, 5 address formats) validated by TLC.",
-    "level_note": "Trusted: TLC; the mock backend (cache.MockCache) as the backend's semantics; the driver's mapping of model values/keys/versions to "
+    "level_note": "Backend failures: every client operation may find the backend failing (environment choice; the driver stacks the real "
+                  "wrappers over the mock behind a switch that makes the chosen call return an error and do nothing); clauses FailedReadIsLocal "
+                  "(GetMultiWithError returns exactly the local hits and the error iff the backend was needed), FailedWriteKeepsBackend, "
+                  "NoErrorWithoutFault, and NeverWrong / NeverAfterDelete / NeverAfterDeadline weakened by 'limbo' (a write whose backend call failed "
+                  "may or may not be visible until the next successful store or delete), decided for one-view stacks to depth 3 in the thorough tier "
+                  "and exercised by 10% failing operations in every script (both tiers). TTL <= 0 (stored already expired) is in the scripts and in "
+                  "the fault config. FailedSetInvisible (MC_faults_finding.cfg, not in the tiers) is violated by LRUCache.Set. Trusted: TLC; the mock backend (cache.MockCache) as the backend's semantics; the driver's mapping of model values/keys/versions to "
                   "concrete bytes (empty, 1 byte, 64 KiB compressible, 64 KiB random, a valid snappy block) and of numbered server names to integers "
                   "(natural order of the generated names = numeric order by construction). Encode/decode fidelity is exercised on those byte strings "
                   "only. A sequential client; asynchronous memcached writes and real network backends are out of scope.",
@@ -83,23 +89,24 @@ def gen_scripts(path, seed, n, depth):
                 x = rnd.random()
                 w = rnd.randint(1, views)
                 ks = rnd.sample(keys[:nk], rnd.choice([1, 1, 2, nk]))
-                ttl = rnd.choice([1, 1, 2, 3])
+                ttl = rnd.choice([1, 1, 1, 2, 2, 3, 3, 0, -1])        # TTL <= 0: stored already expired
+                fail = rnd.random() < 0.10                            # the backend call of this operation fails
                 if x < 0.30:
-                    ops.append({"name": "get", "w": w, "keys": ks, "vals": [], "ttl": 0})
+                    ops.append({"name": "get", "w": w, "keys": ks, "vals": [], "ttl": 0, "fail": fail})
                 elif x < 0.42:
-                    ops.append({"name": "set", "w": w, "keys": ks[:1], "vals": [rnd.choice(vals)], "ttl": ttl})
+                    ops.append({"name": "set", "w": w, "keys": ks[:1], "vals": [rnd.choice(vals)], "ttl": ttl, "fail": fail})
                 elif x < 0.48:
-                    ops.append({"name": "setasync", "w": w, "keys": ks[:1], "vals": [rnd.choice(vals)], "ttl": ttl})
+                    ops.append({"name": "setasync", "w": w, "keys": ks[:1], "vals": [rnd.choice(vals)], "ttl": ttl, "fail": fail})
                 elif x < 0.60:
-                    ops.append({"name": "setmulti", "w": w, "keys": ks, "vals": [rnd.choice(vals) for _ in ks], "ttl": ttl})
+                    ops.append({"name": "setmulti", "w": w, "keys": ks, "vals": [rnd.choice(vals) for _ in ks], "ttl": ttl, "fail": fail})
                 elif x < 0.72:
-                    ops.append({"name": "add", "w": w, "keys": ks[:1], "vals": [rnd.choice(vals)], "ttl": ttl})
+                    ops.append({"name": "add", "w": w, "keys": ks[:1], "vals": [rnd.choice(vals)], "ttl": ttl, "fail": fail})
                 elif x < 0.80:
-                    ops.append({"name": "delete", "w": w, "keys": ks[:1], "vals": [], "ttl": 0})
+                    ops.append({"name": "delete", "w": w, "keys": ks[:1], "vals": [], "ttl": 0, "fail": fail})
                 elif x < 0.95 or "snappy" not in kinds:
-                    ops.append({"name": "advance", "w": 0, "keys": [], "vals": [], "ttl": rnd.choice([1, 1, 1, 2, 3])})
+                    ops.append({"name": "advance", "w": 0, "keys": [], "vals": [], "ttl": rnd.choice([1, 1, 1, 2, 3]), "fail": False})
                 else:
-                    ops.append({"name": "poke", "w": w, "keys": ks[:1], "vals": [], "ttl": ttl})
+                    ops.append({"name": "poke", "w": w, "keys": ks[:1], "vals": [], "ttl": max(1, ttl), "fail": False})
             f.write(json.dumps({"stack": sid, "cap": cap, "dttl": dttl, "ops": ops}) + "\n")
 
 
@@ -139,10 +146,12 @@ def run(ctx):
     else:
         decide = [("MC_single.cfg", {}),
                   ("MC_views.cfg", {"@@STACKS@@": allv, "@@MAXOPS@@": 3, "@@CAPS@@": "{1, 2}"}),
-                  ("MC_views.cfg", {"@@STACKS@@": shared, "@@MAXOPS@@": 4, "@@CAPS@@": "{1}"})]
+                  ("MC_views.cfg", {"@@STACKS@@": shared, "@@MAXOPS@@": 4, "@@CAPS@@": "{1}"}),
+                  # backend failures as an environment choice per operation, TTL 0 (measured: 2,632,780 transitions)
+                  ("MC_faults.cfg", {"@@STACKS@@": "{1, 2, 8}", "@@TTLS@@": "{0, 1, 2}", "@@MAXOPS@@": 3})]
     for n, (cfg, subst) in enumerate(decide if "decide" in phases else []):
         cov = (not quick) and n < 2          # vacuity guard on the first two thorough configs (coverage costs time)
-        r = ctx.tlc("cache", "CacheStack", cfg=cfg, subst=subst or None, workers=workers(), timeout=(780 if not quick else 300) * scale,
+        r = ctx.tlc("cache", "CacheStack", cfg=cfg, subst=subst or None, workers=workers(), timeout=(2400 if not quick else 300) * scale,
                     deadlock=False, coverage=cov)
         ctx.require_tlc_ok(r, cfg)
         if cov:
